@@ -34,6 +34,8 @@ type psCase struct {
 	Len      int         `json:"len"`
 	Script   encx.Script `json:"script"`
 	FailCall int         `json:"failcall"` // -1 = never
+	// ResumeLen > 0 (failOnce only): the failure is transient, the source goes on with that many more bytes
+	ResumeLen int `json:"resume_len,omitempty"`
 }
 
 func content(n int) []byte {
@@ -58,6 +60,9 @@ func (c psCase) line() string {
 func runPS(c psCase) string {
 	s := c.Script
 	s.Data = content(c.Len)
+	if c.ResumeLen > 0 && s.Term == "failOnce" {
+		s.ResumeData = content(c.Len + c.ResumeLen)[c.Len:]
+	}
 	var calls []string
 	fn := func(out io.Writer, data []byte, num uint32, last bool) error {
 		l := 0
@@ -73,15 +78,17 @@ func runPS(c psCase) string {
 	}
 	var out []byte
 	var terr error
+	var src *encx.ScriptReader
 	gerr := encx.Guard(20*time.Second, func() error {
-		r := enc.VerifProcessSegments(s.Reader(), c.Seg, fn)
+		src = s.Reader()
+		r := enc.VerifProcessSegments(src, c.Seg, fn)
 		out, terr = encx.Drain(r, nil)
 		return nil
 	})
 	if gerr != nil {
 		return "term=" + encx.Canon(gerr)
 	}
-	return fmt.Sprintf("calls=%s out=%s term=%s", strings.Join(calls, ";"), hex.EncodeToString(out), encx.Canon(terr))
+	return fmt.Sprintf("calls=%s out=%s term=%s", strings.Join(calls, ";"), hex.EncodeToString(out), encx.CanonSrc(terr, s, src))
 }
 
 // compositions calls f with every composition of n (ordered chunk sizes summing to n).
@@ -120,7 +127,7 @@ func genPS(tier string, rng *lib.Rand, search bool) []psCase {
 	add := func(seg, n int, caps []int, fail int) {
 		for _, ewd := range []bool{false, true} {
 			for _, t := range terms {
-				cases = append(cases, psCase{"ps", seg, n, encx.Script{Caps: append([]int(nil), caps...), EWD: ewd, Term: t}, fail})
+				cases = append(cases, psCase{"ps", seg, n, encx.Script{Caps: append([]int(nil), caps...), EWD: ewd, Term: t}, fail, 0})
 			}
 		}
 	}
@@ -183,6 +190,16 @@ func genPS(tier string, rng *lib.Rand, search bool) []psCase {
 						parts = insertZero(parts, rng.Intn(len(parts)+1))
 					}
 					add(seg, n, parts, -1)
+				}
+			}
+			// transient failures: the source fails once (with or without the data of that call) after n bytes
+			// and then goes on; every n, i.e. also exactly on a segment boundary + 1
+			for _, rl := range []int{1, seg, seg + 2} {
+				for _, ewd := range []bool{false, true} {
+					for k, caps := range [][]int{nil, {1, 1, 1, 1, 1, 1, 1, 1, 1, 1, 1, 1, 1, 1, 1, 1, 1, 1, 1, 1, 1, 1, 1, 1, 1, 1}, {seg + 1}, {seg, 1, seg, 1, seg, 1}, {seg + 1, seg, seg, seg}} {
+						cases = append(cases, psCase{"ps", seg, n, encx.Script{Caps: append([]int(nil), caps...), EWD: ewd, Term: "failOnce",
+							Err: encx.ErrKinds[(n+k+rl)%len(encx.ErrKinds)]}, -1, rl})
+					}
 				}
 			}
 			// caps larger than what is left, unlimited reads, aligned reads
@@ -350,6 +367,9 @@ func checkPSMonitor(res *lib.Result, c psCase, impl string) {
 		return
 	}
 	data := content(c.Len)
+	if c.ResumeLen > 0 && c.Script.Term == "failOnce" && c.Script.Fails() {
+		data = content(c.Len + c.ResumeLen) // a transient failure: whatever is processed must still be a prefix of what the source holds
+	}
 	var got []byte
 	callsStr := kv["calls"]
 	var calls []string
@@ -377,14 +397,12 @@ func checkPSMonitor(res *lib.Result, c psCase, impl string) {
 	if !encx.IsPrefix(got, data) {
 		res.Violate("loop-not-prefix", "processed bytes are not a prefix of the content", c)
 	}
-	if term == "ok" && (!bytes.Equal(got, data) || c.Script.Term != "eof" && c.FailCall < 0) {
-		if c.Script.Term != "eof" {
-			res.Violate("loop-source-error-lost", "source failed but the pipe closed cleanly", c)
-		} else {
-			res.Violate("loop-silent-truncation", "clean end without processing all content", c)
-		}
+	if term == "ok" && c.Script.Fails() && c.FailCall < 0 {
+		res.Violate("loop-source-error-lost", "source failed but the pipe closed cleanly", c)
+	} else if term == "ok" && !bytes.Equal(got, data) {
+		res.Violate("loop-silent-truncation", "clean end without processing all content", c)
 	}
-	if c.Script.Term == "eof" && c.FailCall < 0 && term != "ok" {
+	if !c.Script.Fails() && c.FailCall < 0 && term != "ok" {
 		res.Violate("loop-spurious-error", "non-failing source and processFn but terminal "+term, c)
 	}
 }
@@ -419,11 +437,15 @@ type toyCase struct {
 	Mut    string      `json:"mutation"`
 	Doc    string      `json:"doc_hex"`
 	Script encx.Script `json:"script"`
+	Resume string      `json:"resume_hex,omitempty"` // failOnce only: delivered after the transient failure
 }
 
 func runToy(c toyCase) string {
 	sc := c.Script
 	sc.Data, _ = hex.DecodeString(c.Doc)
+	if c.Resume != "" && sc.Term == "failOnce" {
+		sc.ResumeData, _ = hex.DecodeString(c.Resume)
+	}
 	const key = 5
 	ncalls := 0
 	fn := func(out io.Writer, d []byte, i uint32, last bool) error {
@@ -481,14 +503,23 @@ func genToy(tier string, rng *lib.Rand) []toyCase {
 				scripts := []encx.Script{{}, {Caps: []int{1, 1, 1, 1, 1, 1, 1, 1, 1, 1, 1, 1, 1, 1, 1, 1}, EWD: true}, {Caps: []int{seg + 1, 0, seg + 2}}, encx.RandomScript(rng, len(d), seg+1)}
 				for _, sc := range scripts {
 					sc.Term = "eof"
-					cases = append(cases, toyCase{"toy", seg, n, mut, hex.EncodeToString(d), sc})
+					cases = append(cases, toyCase{Kind: "toy", Seg: seg, Len: n, Mut: mut, Doc: hex.EncodeToString(d), Script: sc})
 					// a failing source: the error value rotates through the palette
 					sc.Term = []string{"failOnce", "failSticky"}[len(cases)%2]
 					sc.Err = encx.ErrKinds[(len(cases)/2)%len(encx.ErrKinds)]
-					cases = append(cases, toyCase{"toy", seg, n, mut, hex.EncodeToString(d), sc})
+					cases = append(cases, toyCase{Kind: "toy", Seg: seg, Len: n, Mut: mut, Doc: hex.EncodeToString(d), Script: sc})
 				}
 			}
 			add("none", doc)
+			// a transient source failure at every offset of the untouched document, with and without data
+			for k := 0; k <= len(doc); k++ {
+				for _, ewd := range []bool{false, true} {
+					for _, caps := range [][]int{nil, {1, 1, 1, 1, 1, 1, 1, 1, 1, 1, 1, 1, 1, 1, 1, 1}, {seg + 2, seg + 1, seg + 1}} {
+						cases = append(cases, toyCase{"toy", seg, n, fmt.Sprintf("transient@%d", k), hex.EncodeToString(doc[:k]),
+							encx.Script{Caps: caps, EWD: ewd, Term: "failOnce", Err: encx.ErrKinds[k%len(encx.ErrKinds)]}, hex.EncodeToString(doc[k:])})
+					}
+				}
+			}
 			for cut := 0; cut < len(doc); cut++ {
 				add(fmt.Sprintf("trunc@%d", cut), doc[:cut])
 			}
